@@ -28,7 +28,7 @@ from checks.pcommon import prog, account, finish_case
 LANGS = ["swift", "scala", "python", "go", "typescript", "kotlin"]
 TRIGGERS = ["unit", "u8", "u16", "u32", "U53", "i32", "option", "vec", "map", "datetime", "generic", "bytes", "string"]
 POSITIONS = ["field", "field_default", "newtype", "alias", "generic_arg", "struct_variant_field", "generic_alias"]
-WRAPS = [(), ("vec",), ("option",), ("map",), ("vec", "vec"), ("option", "vec"), ("vec", "option"), ("map", "vec"), ("array",), ("slice",), ("array", "vec")]
+WRAPS = [(), ("vec",), ("option",), ("map",), ("vec", "vec"), ("option", "vec"), ("vec", "option"), ("map", "vec"), ("array",), ("slice",), ("array", "vec"), ("mapkey",), ("vec", "mapkey"), ("map", "mapkey")]
 
 
 def trig_type(ir, trig):
@@ -47,6 +47,8 @@ def wrap(ir, t, ws):
             t = ir.option(t)
         elif w == "map":
             t = ir.hashmap(ir.special("String"), t)
+        elif w == "mapkey":
+            t = ir.hashmap(t, ir.special("String"))
         elif w == "array":
             t = ir.array(t, 2)
         elif w == "slice":
@@ -314,7 +316,7 @@ RUST_T = {"unit": "()", "u8": "u8", "u16": "u16", "u32": "u32", "U53": "U53", "i
 def render(trig, pos, ws, name="Abc"):
     t = RUST_T[trig]
     for w in reversed(ws):
-        t = {"vec": "Vec<%s>", "option": "Option<%s>", "map": "HashMap<String, %s>", "array": "[%s; 2]", "slice": "&'static [%s]"}[w] % t
+        t = {"vec": "Vec<%s>", "option": "Option<%s>", "map": "HashMap<String, %s>", "mapkey": "HashMap<%s, String>", "array": "[%s; 2]", "slice": "&'static [%s]"}[w] % t
     g = "<T>" if trig == "generic" else ""
     if pos == "field":
         return "#[typeshare]\npub struct %s%s { pub f: %s }\n" % (name, g, t)
